@@ -30,9 +30,7 @@ func Analyse(def *Def, cfg load.Config, tier string) ([]chk.Obligation, int) {
 	defer ir.Forget(p)
 	fa := facts.Analyze(p)
 	c := &chk.Ctx{P: p, F: fa, M: chk.Resolve(p)}
-	for _, pr := range c.M.Problems {
-		c.Undecided("ANCHOR", nil, pr, 0, "anchor resolution failed: %s", pr)
-	}
+	reportAnchorProblems(c, def.ID)
 	if !fa.Fixed {
 		c.Undecided("ENGINE", nil, "facts fixpoint", 0, "lockset analysis did not reach a fixpoint")
 	}
@@ -269,9 +267,7 @@ func AnalyseAll(cfg load.Config) map[string][]chk.Obligation {
 					out[id] = append(c.Obs, chk.Obligation{Rule: "ENGINE", Func: "-", Construct: "panic", Site: "-", Status: chk.Undecided, Detail: fmt.Sprint(r)})
 				}
 			}()
-			for _, pr := range c.M.Problems {
-				c.Undecided("ANCHOR", nil, pr, 0, "anchor resolution failed: %s", pr)
-			}
+			reportAnchorProblems(c, id)
 			if !fa.Fixed {
 				c.Undecided("ENGINE", nil, "facts fixpoint", 0, "lockset analysis did not reach a fixpoint")
 			}
@@ -335,4 +331,84 @@ func Variants(repo string, patches []string, verbose bool) {
 	for _, l := range lines {
 		fmt.Println(l)
 	}
+}
+
+// reportAnchorProblems reports failed anchor resolutions to the properties
+// whose rules use the anchors concerned (anchorDeps, generated by
+// `jrpcvet -anchor-deps`: the anchors whose absence changes the property's
+// verdicts on the pinned tree). A problem that cannot be tied to a missing
+// anchor, or a property without an entry, gets every problem.
+func reportAnchorProblems(c *chk.Ctx, id string) {
+	if len(c.M.Problems) == 0 {
+		return
+	}
+	missing := c.M.AnchorNames(true)
+	deps, known := anchorDeps[id]
+	relevant := !known || len(missing) == 0
+	for _, a := range missing {
+		if deps[a] {
+			relevant = true
+		}
+	}
+	if !relevant {
+		return
+	}
+	for _, pr := range c.M.Problems {
+		c.Undecided("ANCHOR", nil, pr, 0, "anchor resolution failed: %s", pr)
+	}
+}
+
+// AnchorDeps computes, on the tree in cfg, which anchors each property
+// depends on: anchor A belongs to property P when running P's rules with A
+// missing changes the set of obligations or their status (or makes a rule
+// fail). Printed as Go source for anchordeps_gen.go.
+func AnchorDeps(cfg load.Config) string {
+	lp, err := load.Load(cfg)
+	if err != nil {
+		return "// load failed: " + err.Error()
+	}
+	p := ir.New(lp)
+	defer ir.Forget(p)
+	fa := facts.Analyze(p)
+	model := chk.Resolve(p)
+	run := func(def *Def, m *chk.Model) (sig string) {
+		defer func() {
+			if r := recover(); r != nil {
+				sig = fmt.Sprintf("panic: %v", r)
+			}
+		}()
+		c := &chk.Ctx{P: p, F: fa, M: m}
+		def.Run(c, "quick")
+		c.Finish()
+		var ks []string
+		for _, o := range c.Obs {
+			ks = append(ks, o.Key()+"="+fmt.Sprint(o.Status))
+		}
+		sort.Strings(ks)
+		return strings.Join(ks, "\n")
+	}
+	var b strings.Builder
+	b.WriteString("// Code generated by `jrpcvet -anchor-deps`; DO NOT EDIT.\n\npackage props\n\n")
+	b.WriteString("// anchorDeps: for each property, the model anchors whose absence changes its verdicts on the pinned tree.\n")
+	b.WriteString("var anchorDeps = map[string]map[string]bool{\n")
+	for _, def := range All() {
+		base := run(def, model)
+		var deps []string
+		for _, a := range model.AnchorNames(false) {
+			if run(def, model.Without(a)) != base {
+				deps = append(deps, a)
+			}
+		}
+		sort.Strings(deps)
+		b.WriteString(fmt.Sprintf("\t%q: {", def.ID))
+		for i, d := range deps {
+			if i > 0 {
+				b.WriteString(", ")
+			}
+			b.WriteString(fmt.Sprintf("%q: true", d))
+		}
+		b.WriteString("},\n")
+	}
+	b.WriteString("}\n")
+	return b.String()
 }
